@@ -78,12 +78,13 @@ def move_cases():
     expected = {"board": {(r,c): content}, "king": (owner, (r,c)) or None, "rights_cleared": set of short names}"""
     cases = []
 
-    def normal(name, owner, kind, s, e, captured=None, cleared=(), king=False):
+    def normal(name, owner, kind, s, e, captured=None, cleared=(), king=False, may=()):
         pc = piece(kind, owner)
         cap = some(captured) if captured is not None else NONE
         mv = ("struct", MV + "Normal", (("captured_piece", cap), ("end", pos(*e)), ("piece", pc), ("start", pos(*s))))
         pre = {s: some(pc), e: cap}
-        cases.append((name, mv, owner, pre, {"board": {s: NONE, e: some(pc)}, "king": (owner, e) if king else None, "cleared": set(cleared)}))
+        cases.append((name, mv, owner, pre, {"board": {s: NONE, e: some(pc)}, "king": (owner, e) if king else None, "cleared": set(cleared),
+                                            "may": set(may)}))
     normal("knight b1-c3", "White", "Knight", (0, 1), (2, 2))
     normal("knight g8-f6", "Black", "Knight", (7, 6), (5, 5))
     normal("king e1-e2", "White", "King", (0, 4), (1, 4), cleared=("wk", "wq"), king=True)
@@ -94,6 +95,18 @@ def move_cases():
     normal("rook a8-a5", "Black", "Rook", (7, 0), (4, 0), cleared=("bq",))
     normal("rook h8-g8", "Black", "Rook", (7, 7), (7, 6), cleared=("bk",))
     normal("rook d4-d5", "White", "Rook", (3, 3), (4, 3))
+    # a rook on a corner of the other side (a second rook, a promoted one): leaving it costs the mover nothing
+    normal("white rook a8-a7", "White", "Rook", (7, 0), (6, 0), may=("bq",))
+    normal("white rook h8-h6", "White", "Rook", (7, 7), (5, 7), may=("bk",))
+    normal("black rook a1-b1", "Black", "Rook", (0, 0), (0, 1), may=("wq",))
+    normal("black rook h1-h2", "Black", "Rook", (0, 7), (1, 7), may=("wk",))
+    # other pieces on corners and king squares
+    normal("queen a1-a5", "White", "Queen", (0, 0), (4, 0), may=("wq",))
+    normal("bishop h8-g7", "Black", "Bishop", (7, 7), (6, 6), may=("bk",))
+    normal("rook e8-c8 (white rook on the black king square)", "White", "Rook", (7, 4), (7, 2))
+    normal("queen e1-g1 (black queen on the white king square)", "Black", "Queen", (0, 4), (0, 6))
+    normal("rook takes bishop on h1", "Black", "Rook", (4, 7), (0, 7), captured=piece("Bishop", "White"), may=("wk",))
+    normal("knight takes queen on a8", "White", "Knight", (5, 1), (7, 0), captured=piece("Queen", "Black"), may=("bq",))
     normal("bishop takes rook h8", "White", "Bishop", (1, 1), (7, 7), captured=piece("Rook", "Black"), cleared=("bk",))
     normal("queen takes rook a8", "White", "Queen", (0, 0 + 3), (7, 0), captured=piece("Rook", "Black"), cleared=("bq",))
     normal("knight takes rook a1", "Black", "Knight", (2, 1), (0, 0), captured=piece("Rook", "White"), cleared=("wq",))
@@ -186,7 +199,8 @@ def check_push(F):
                 probs.append("right %s is granted by a move" % short)
             elif not (isinstance(v, tuple) and v[:1] in (("var",), ("field",), ("call",))):
                 probs.append("right %s: undecided (%s)" % (short, hir.fmt(v, 80)))
-        if cleared != exp["cleared"]:
+        # "may": rights whose loss changes nothing in any reachable position (the right of a corner an enemy piece stands on)
+        if cleared - exp.get("may", set()) != exp["cleared"]:
             probs.append("castling rights cleared: %s, the rules prescribe %s" % (sorted(cleared), sorted(exp["cleared"])))
         for p_ in probs:
             bad.append((name, p_))
